@@ -567,6 +567,7 @@ fn c04(thorough: bool, rng: &mut Rng, out: &mut Out) {
     } else {
         "quick: length 1 complete over 256 x 256 x 2 addresses; other lengths 256 types x 16 first bytes; recognised codes over 300 addresses".into()
     };
+    out.exhaustive = thorough;
     let addrs6: [u16; 6] = [0, 3, 0x7F, 0x100, 0xABCD, 0xFFFF];
     let lens = [0usize, 1, 2, 3, 16, 255];
     for &len in &lens {
